@@ -349,6 +349,36 @@ def _lookup(lib, path):
 _NAMED_RE = re.compile(r'^\s*[A-Za-z_][A-Za-z_0-9]*\s*:(?!:)')
 
 
+_DOCNAMES = {}
+
+
+def doc_pos_names(f):
+    """the mandatory parameter names of a function as the SHIPPED documentation (docs/ in the repository) prints them, in
+    documented order - what a script author relies on; None when the page or the signature is not found"""
+    from . import core
+    path = f['path']
+    if path in _DOCNAMES: return _DOCNAMES[path]
+    if '.' in path: page = path.split('.')[0].replace('::', '/') + '.md'
+    else:
+        parts = path.split('::')[:-1]
+        page = ('/'.join(parts) + '/README.md') if parts else 'README.md'
+    names = None
+    try:
+        txt = open(os.path.join(core.REPO, 'docs', page), encoding='utf-8').read()
+        m = re.search(r'resynth fn %s\s*\((.*?)\)\s*->' % re.escape(f['name']), txt, re.S)
+        if m:
+            names = []
+            for ln in m.group(1).split('\n'):
+                ln = ln.strip()
+                if not ln or ln.startswith('=>') or ln.startswith('*') or '=' in ln: continue
+                mm = re.match(r'([A-Za-z_][A-Za-z_0-9]*)\s*:', ln)
+                if mm: names.append(mm.group(1))
+    except OSError:
+        pass
+    _DOCNAMES[path] = names
+    return names
+
+
 def name_mandatory(src, lib, rng, p=(1, 2)):
     """Semantics-preserving rewrite (C11): in calls of library functions, pass the mandatory parameters by name instead of
     by position (in declaration order or reversed). Only calls whose leading arguments are all positional are touched."""
@@ -379,7 +409,9 @@ def name_mandatory(src, lib, rng, p=(1, 2)):
         inner = text[m.end():j - 1]
         if f is None or f.get('kind') != 'func' or depth or not rng.chance(*p):
             out += text[i:m.end()]; i = m.end(); continue
-        pos = [a['name'] for a in f['args'] if a['kind'] == 'pos']
+        pos = doc_pos_names(f)
+        if pos is None or len(pos) != len([a for a in f['args'] if a['kind'] == 'pos']):
+            out += text[i:m.end()]; i = m.end(); continue
         args = _split_args(inner)
         if not pos or len(args) < len(pos) or any(_NAMED_RE.match(a) for a in args[:len(pos)]):
             out += text[i:m.end()]; i = m.end(); continue
